@@ -23,6 +23,7 @@ endpoint (parse_request + process_request) with a JWKS of several key types, is 
 registration-read endpoint, and is then sent request objects like the static clients.
 """
 import base64
+import copy
 import json
 import os
 
@@ -83,9 +84,26 @@ def enc_keys():
     return ENC
 
 
+def gen_owner(g):
+    """the name under which the generator keeps the g-th generation of client_d's material: asymmetric keys of key
+    generation g, and (slot "oct") the client_secret issued by the g-th registration under the id"""
+    return DYN if g == 0 else "%s#%d" % (DYN, g)
+
+
+def gen_of(owner):
+    """(client the material belongs to, generation) of a key owner name"""
+    base, _, g = owner.partition("#")
+    return base, int(g) if g else 0
+
+
+GENERATIONS = 3
+JWKS_URI = "https://client_d.example.com/jwks.json"
+
+
 def keynum(owner, kty):
-    if owner == DYN:
-        return 12 + DYN_SLOTS.index(kty)
+    base, g = gen_of(owner)
+    if base == DYN:
+        return 12 + 6 * g + DYN_SLOTS.index(kty)
     return OWNERS.index(owner) * 3 + KTYS.index(kty)
 
 
@@ -98,6 +116,10 @@ def dyn_keys():
             kj = build_keyjar([kd])
             ks[slot] = kj.get_signing_key(kd["type"])[0]
         _KEYS[DYN] = ks
+        # later generations of the client's key material (a client that registers again with new keys): RSA and P-256
+        for g in range(1, GENERATIONS):
+            _KEYS[gen_owner(g)] = {slot: build_keyjar([DYN_KEYDEFS[slot]]).get_signing_key(DYN_KEYDEFS[slot]["type"])[0]
+                                   for slot in ("RSA", "EC")}
     return _KEYS[DYN]
 
 
@@ -119,6 +141,7 @@ def b64j(d):
 class Resp:
     def __init__(self, code, text):
         self.status_code, self.status, self.text = code, code, text
+        self.headers = {"Content-Type": "application/json"}
 
 
 class World:
@@ -165,6 +188,8 @@ class World:
         self.fetches += 1
         if url in self.docs:
             return Resp(200, self.docs[url])
+        if url in getattr(self, "published", {}):
+            return Resp(200, self.published[url])
         return Resp(404, "")
 
     def reset(self):
@@ -219,10 +244,11 @@ class World:
         for t in ("RSA", "EC"):
             if t in self.op:
                 mine[(t, self.op[t].kid)] = keynum("OP", t)
-        for slot, k in (self.keys.get(DYN) or {}).items():
-            t = k.kty if k.kty in KTYS else None
-            if t is not None:
-                mine[(t, k.kid if t != "oct" else k.key)] = keynum(DYN, slot)
+        for g in range(GENERATIONS):
+            for slot, k in (self.keys.get(gen_owner(g)) or {}).items():
+                t = k.kty if k.kty in KTYS else None
+                if t is not None:
+                    mine[(t, k.kid if t != "oct" else k.key)] = keynum(gen_owner(g), slot)
         jar = []
         for iss in kj.owners():
             ks = []
@@ -262,7 +288,7 @@ class World:
 
     def sign_key(self, owner, alg):
         """the key [owner] signs [alg] with: by key type, and for client_d by curve"""
-        return self.keys[owner][slot_of(alg)] if owner == DYN else self.key_of(owner, ALG_KTY[alg])
+        return self.keys[owner][slot_of(alg)] if gen_of(owner)[0] == DYN else self.key_of(owner, ALG_KTY[alg])
 
     def wire(self, obj):
         if obj is None:
@@ -349,6 +375,11 @@ class World:
 ROSA = "request_object_signing_alg"
 
 
+def _sans_bookkeeping(rec):
+    """a client record without `auth_method` (parse_request notes there how the caller of each request class authenticated)"""
+    return None if rec is None else {k: v for k, v in dict(rec).items() if k != "auth_method"}
+
+
 class RegWorld(World):
     """A provider with the two static clients and a real registration / registration-read endpoint; its own signing
     keys are one of OP_KEYSETS.  client_d comes into being only through register()."""
@@ -377,6 +408,10 @@ class RegWorld(World):
         self.ctx.registration_access_token.clear()
         # until a registration assigns a secret, client_d "signs" HS* objects with a secret the provider never issued
         self.keys[DYN]["oct"] = SYMKey(key="client_d_has_no_secret_yet_0123456789abcdef", use="sig")
+        for g in range(1, GENERATIONS):
+            self.keys[gen_owner(g)]["oct"] = SYMKey(key="client_d_has_no_secret_%d_yet_0123456789abcdef" % g, use="sig")
+        self.published = {}          # what the client serves at its jwks_uri
+        self.registrations = 0       # how many registrations under the id were attempted in this case
 
     def read_back(self, cid, rat):
         """the registration-read endpoint, with the registration access token the client was given"""
@@ -428,6 +463,70 @@ class RegWorld(World):
                 "echo": ra.get(ROSA), "stored": rec.get(ROSA), "read": read.get(ROSA), "read_error": read.get("error"),
                 "secret_echo": ra.get("client_secret") == rec.get("client_secret"),
                 "jar_kids": sorted(k.kid for k in kj.get("sig", issuer_id=cid) if k.kid)}
+
+    # ---- registration histories: the id is registered again (what the library does for a registration update / a
+    # re-used id: Registration.process_request(request, new_id=False) with the client_id in the request)
+    def jar_entry(self, cid=DYN):
+        """what the provider's key jar holds under the id, in the generator's key numbers (None: no such issuer);
+        keys the generator does not know get numbers from 90"""
+        for iss, ks in self.observed_config()["jar"]:
+            if iss == cid:
+                return [[t, n] for t, n in ks]
+        return None
+
+    def register_step(self, index, spec):
+        """the index-th registration under the id client_d.  spec: {"alg": request_object_signing_alg | None,
+        "keys": [(key generation, slot)], "via": "jwks" | "jwks_uri" | None (no key material in the request),
+        "refuse": True (a redirect URI with a fragment: the provider refuses)}.  The first one goes through
+        parse_request + process_request (new id), the later ones process_request(..., new_id=False).
+        Returns what register() returns plus "jar": the key jar entry of the id afterwards, "record_before/after"."""
+        keys = [self.keys[gen_owner(g)][slot].serialize(private=False) for g, slot in spec.get("keys") or []]
+        req = {"application_type": "web", "redirect_uris": [REDIRECT[DYN] + ("#f" if spec.get("refuse") else "")],
+               "response_types": ["code"], "token_endpoint_auth_method": "client_secret_basic"}
+        if spec.get("via") == "jwks":
+            req["jwks"] = {"keys": keys}
+        elif spec.get("via") == "jwks_uri":
+            self.published[JWKS_URI] = json.dumps({"keys": keys})
+            req["jwks_uri"] = JWKS_URI
+        if spec.get("alg") is not None:
+            req[ROSA] = spec["alg"]
+        again = index > 0 and DYN in self.ctx.cdb
+        if again:
+            req["client_id"] = DYN
+        kj = self.server.keyjar
+        before = set(self.ctx.cdb.keys())
+        rec0 = copy.deepcopy(dict(self.ctx.cdb[DYN])) if DYN in self.ctx.cdb else None
+        jar0 = self.jar_entry()
+        why = resp = None
+        try:
+            r = self.reg_ep.parse_request(json.dumps(req))
+            if "error" in r:
+                why = "%s: %s" % (r["error"], r.get("error_description", ""))
+            else:
+                resp = self.reg_ep.process_request(request=r, new_id=not again)
+                if "response_args" not in resp:
+                    why = "%s: %s" % (resp.get("error"), resp.get("error_description", ""))
+        except Exception as e:
+            why = type(e).__name__ + ": " + str(e)
+        if DYN in kj:
+            for kb in kj[DYN]:
+                kb.httpc = self.httpc            # a jwks_uri document is fetched from the generator's table
+        new = sorted(set(self.ctx.cdb.keys()) - before)
+        rec = self.ctx.cdb.get(DYN)
+        if why is not None:
+            return {"k": "refused", "why": why[:160], "new": new, "jar": self.jar_entry(), "jar_before": jar0,
+                    "record_unchanged": _sans_bookkeeping(rec) == _sans_bookkeeping(rec0)}
+        ra = resp["response_args"]
+        cid = ra["client_id"]
+        rec = self.ctx.cdb.get(cid) or {}
+        if rec.get("client_secret"):
+            self.keys[gen_owner(index)]["oct"] = SYMKey(key=rec["client_secret"], use="sig")
+        read = self.read_back(cid, ra.get("registration_access_token"))
+        return {"k": "stored", "cid": cid, "new": new, "code": resp.get("response_code"),
+                "echo": ra.get(ROSA), "stored": rec.get(ROSA), "read": read.get(ROSA), "read_error": read.get("error"),
+                "secret_echo": ra.get("client_secret") == rec.get("client_secret"),
+                "secret_new": rec0 is None or rec.get("client_secret") != rec0.get("client_secret"),
+                "jar": self.jar_entry(cid), "jar_before": jar0}
 
 
 # ---- canonical outcomes
